@@ -147,3 +147,53 @@ func init() {
 }
 
 func flip(sc *Scenario) *Scenario { sc.FlipIDs = true; return sc }
+
+func init() {
+	register(&CheckSpec{Prop: "C05", Runs: func(tier string) []RunSpec {
+		d := 0
+		if tier == "thorough" {
+			d = 2
+		}
+		lifeW := AlphaOpts{RespKinds: []string{"ok"}, RespWrong: true, CtxOps: []string{"pause", "start", "kill"}, CtxWrong: true, Updates: []CtxUpdate{updTotalUp}}
+		modW := AlphaOpts{RespKinds: []string{"ok"}, CtxOps: []string{"pause", "start", "kill"}, Updates: []CtxUpdate{updTotalUp}, ConsumerOnMod: true,
+			ModOps: []string{"mpause", "mstart", "mkill"}}
+		o := []Oracle{oracleC05{}}
+		return []RunSpec{
+			{Name: "bind-auth", Sc: scBindAuth(defaultParams(), 6+d, 3, 4), Oracles: o},
+			{Name: "life-auth", Sc: scLife(defaultParams(), []Template{tOne, tRep2, tPoor}, lifeW, 7+d, 4, 2), Oracles: o},
+			{Name: "mod-auth", Sc: scMod(defaultParams(), []Template{tMod1, tModPoor}, modW, 7+d, 4, 2), Oracles: o},
+			{Name: "fees-auth", Sc: scFees(paramSet("0.1", "0.001"), true, 6+d, 3, 3), Oracles: o},
+			{Name: "msvc-reserved", Sc: scMsvc(defaultParams(), 5+d, 3, 3), Oracles: o},
+		}
+	}})
+	register(&CheckSpec{Prop: "C15", Runs: func(tier string) []RunSpec {
+		d := 0
+		if tier == "thorough" {
+			d = 2
+		}
+		return []RunSpec{
+			{Name: "names", Sc: scNames(defaultParams(), 6+d, 3, 4+d), Oracles: []Oracle{oracleC15{}}},
+			{Name: "later-operations", Sc: scLife(defaultParams(), []Template{tOne, tRep2}, AlphaOpts{RespKinds: []string{"ok", "bad"}, CtxOps: []string{"pause", "start", "kill"}, Withdraw: []string{"O1:"},
+				BindOps: []Action{actDisable("a", "P1", "O1"), actEnable("a", "P1", "O1", 0), actUpdate("a", "P2", "O2", 0, "p3vv", 0)}}, 7+d, 4, 2), Oracles: []Oracle{oracleC15{}}},
+		}
+	}})
+}
+
+func init() {
+	register(&CheckSpec{Prop: "C20", Runs: func(tier string) []RunSpec {
+		d := 0
+		if tier == "thorough" {
+			d = 2
+		}
+		lifeO := AlphaOpts{RespKinds: []string{"ok", "bad", "noout"}, CtxOps: []string{"pause", "start", "kill"},
+			Updates: []CtxUpdate{updTotalUp, updTimeout2}, Withdraw: []string{"O1:", "O2:P2"}}
+		modO := AlphaOpts{RespKinds: []string{"ok", "bad"}, ModOps: []string{"mpause", "mstart", "mkill"}}
+		o := []Oracle{oracleC20{}}
+		return []RunSpec{
+			{Name: "life-determinism+panics", Sc: scLife(defaultParams(), []Template{tOne, tRep2, tPoor}, lifeO, 7+d, 5, 2), Oracles: o, DetCheck: true},
+			{Name: "mod-determinism+panics", Sc: scMod(defaultParams(), []Template{tMod1, tModPoor}, modO, 7+d, 5, 2), Oracles: o, DetCheck: true},
+			{Name: "fees-panics", Sc: scFees(paramSet("0.1", "0.001"), true, 6+d, 3, 3), Oracles: o, DetCheck: true},
+			{Name: "bind-panics", Sc: scBind(defaultParams(), bindOpsFull(), []Template{tSlash2}, []string{"bad"}, 6+d, 4, 3), Oracles: o, DetCheck: true},
+		}
+	}, Pure: inputGrid})
+}
